@@ -54,16 +54,18 @@ theorem T1_leaf_update_is_kvApply (db : List (DbLeaf V)) (cs : List (Nat × Opti
   rw [h1]
   exact map_applyAll encBits_orderEmb cs hdb.sorted hdb.sizeOK.2 (ChOK.keys_lt hcs)
 
-/-- **T1.leaf_sizes_bounded** — every leaf handed to `handle_new_leaf` is non-empty and its body
+/-- **T1.leaf_sizes_bounded** — every leaf handed to `handle_new_leaf` during the whole stage is non-empty and its body
 (`34·n + Σ cell lengths`) is at most `LEAF_NODE_BODY_SIZE` (so `LeafBuilder` is never over-full), and it is at least
 `LEAF_MERGE_THRESHOLD = LEAF_NODE_BODY_SIZE / 2` unless it was handed the cutoff `None` (the rightmost leaf of the
-tree, which may stay under-full). -/
+tree, which may stay under-full); its separator is at most each of its keys and its keys are below the cutoff it was
+handed. -/
 theorem T1_leaf_sizes_bounded (sepf : Nat → Nat → Option Nat) (KB : Nat) (hsep : SepOK sepf KB)
     (db : List (DbLeaf V)) (cs : List (Nat × Option (V × Bool))) (lo : Nat)
     (hdb : DbOK KB db) (hcs : ChOK KB lo cs) (hfirst : ∀ l, db.head? = some l → l.sep ≤ lo) :
     ∃ out log, runWorker sepf db cs = some (out, log) ∧
       ∀ l, OutLeaf.new l ∈ out →
-        l.ents ≠ [] ∧ bodyOf l.ents ≤ BODY ∧ (MERGE ≤ bodyOf l.ents ∨ l.cutoff = none) := by
+        l.ents ≠ [] ∧ bodyOf l.ents ≤ BODY ∧ (MERGE ≤ bodyOf l.ents ∨ l.cutoff = none) ∧
+          (∀ e ∈ l.ents, l.sep ≤ e.key) ∧ (∀ c, l.cutoff = some c → ∀ e ∈ l.ents, e.key < c) := by
   obtain ⟨out, log, e, _, _, h3⟩ := runWorker_spec sepf KB hsep db cs lo hdb hcs hfirst
   exact ⟨out, log, e, h3⟩
 
